@@ -521,3 +521,13 @@ where
 pub fn fmt_format_stub(_args: std::fmt::Arguments<'_>) -> String {
     String::from("HTTP/1.1 401 (formatting stubbed)")
 }
+
+/// `log::__private_api::loc()` uses `#[track_caller]` / `Location::caller()`, which Kani cannot
+/// model; with a log level that admits a message every harness would fail on that unsupported
+/// construct instead of on the code under test.  The stub hands out a dummy location (the log
+/// crate's default no-op logger never looks at it); the ARGUMENT expressions of the log macro -
+/// the subject of the warn-level harnesses - are still evaluated by the real macro expansion.
+pub fn log_loc_stub() -> &'static std::panic::Location<'static> {
+    static FAKE: [u64; 8] = [0; 8];
+    unsafe { &*(FAKE.as_ptr() as *const std::panic::Location<'static>) }
+}
